@@ -55,11 +55,13 @@ def run_executions(execs, wd, jobs=16):
     exes = {}
     for e in execs:
         k = (e.variant, e.alloc)
-        if k not in exes:
+        if k not in exes and not getattr(e, 'recorded', False):
             exes[k] = mk.build_driver(e.variant, e.alloc)
 
     def one(ie):
         i, e = ie
+        if getattr(e, 'recorded', False):       # a trace recorded elsewhere (the repository's own programs through the shim)
+            return e
         log = os.path.join(wd, 'x%05d.ndjson' % i)
         e.rc, e.events, e.err = mk.run_driver(exes[(e.variant, e.alloc)], e.script, log, fill=e.fill)
         e.log = log
@@ -202,12 +204,18 @@ def write_evidence(pid, tier_, level, coverage, assumptions, wall, violations):
         json.dump(ev, f, indent=1, default=str)
 
 
+REPLAY_CTX = {}        # how the check at hand validates (relaxation groups, oracle, known-deviation keys, tolerance): saved with every replay
+
+
 def save_replay(pid, name, exe, extra=None):
     d = os.path.join(os.environ.get('VERIF_EVIDENCE_DIR') or VERIF, 'replays')
     os.makedirs(d, exist_ok=True)
     path = os.path.join(d, '%s-%s.json' % (pid, name))
     json.dump(dict(property=pid, variant=exe.variant, alloc=exe.alloc, fill=exe.fill, label=exe.label,
-                   script=exe.script, extra=extra), open(path, 'w'), indent=1)
+                   script=exe.script, suite_src=getattr(exe, 'suite_src', None),
+                   oracle=bool(REPLAY_CTX.get('oracle')) and bool(getattr(exe, 'oracle', True)),
+                   relax=list(REPLAY_CTX.get('relax', ('live',))), known=REPLAY_CTX.get('known'), kbits=REPLAY_CTX.get('kbits'),
+                   extra=extra), open(path, 'w'), indent=1)
     return path
 
 
